@@ -31,7 +31,8 @@ def cfg(tier):
     vals = sorted(set(vals))
     return dict(CostTexts="{" + ", ".join(chars(t) for t in texts) + "}",
                 Subs=S("debit", "reserve", "aoc", "release"),
-                Values="{" + ", ".join(tla_limbs(v) for v in vals) + "}", EmitOneIn=1), 100000
+                Values="{" + ", ".join(tla_limbs(v) for v in vals) + "}",
+                Others="{" + ", ".join(tla_limbs(v) for v in (0, 3)) + "}", EmitOneIn=1), 100000
 
 
 SEEN = []
